@@ -79,6 +79,11 @@ example : (SQuery.pr false { kind := .expr (.atom (.ident "c")), bound := .bin (
 open UtapModel.QuerySmc in
 example : (SQuery.sim { kind := .steps, bound := .atom (.nat 10), runs := some 1 } [x, gt1]).wf = true := by decide +kernel
 open UtapModel.QuerySmc in
+/-- a bound whose operand needs parentheses next to `<=` is covered: `E[c <= (x && x)](max: x)` (written bare before the repair 9985bc8) -/
+example : (SQuery.ex { kind := .expr (.atom (.ident "c")), bound := .bin (tokOfText "&&") x x, runs := none } true x).wf = true ∧
+    toksTextQ (sprint (.ex { kind := .expr (.atom (.ident "c")), bound := .bin (tokOfText "&&") x x, runs := none } true x)) =
+      "E [ c <= ( x && x ) ] ( max : x )" := by decide +kernel
+open UtapModel.QuerySmc in
 example : toksTextQ (sprint (.ex { kind := .time, bound := .atom (.nat 9), runs := none } true x)) = "E [ <= 9 ] ( max : x )" := by decide +kernel
 open UtapModel.QuerySmc in
 /-- the hypothesis on the `[]` form cannot be dropped: a second operand of `Pr[..]([] e)` is not printed -/
